@@ -35,6 +35,7 @@ ASSUMPTIONS = [
 
 ME = 'me'
 PEERS = {'p1': ('10.0.5.1', 7001), 'p2': ('10.0.5.2', 7002), 'p3': ('10.0.5.3', 7003)}
+UNREACHABLE = {'p9': ('10.0.5.9', 7009)}     # proposed as potential parent, refuses connections, may connect in
 SPEEDS = {'low': 0, 'one': 5120, 'many': 51200}
 
 
@@ -56,9 +57,13 @@ class Rig:
         self.sent_by_peer: dict = {}        # id(peer conn) -> {'level':..,'root':..}
         for name, (ip, port) in PEERS.items():
             self.peers[name] = self.cw.peer(name, ip, port=port)
+        for name, (ip, port) in UNREACHABLE.items():
+            self.peers[name] = self.cw.peer(name, ip, port=port, listen=False)
         self.violations: list[Violation] = []
         self.sigs: set = set()
         self.session_lost = False
+        self.proposed: list[str] = []        # what the server proposed as potential parents (most recent 20)
+        self.stall_incoming = False
 
     def _on_stats_request(self, srv, msg):
         if msg.username == ME:
@@ -92,7 +97,9 @@ class Rig:
         kind = ev[0]
         srv = self.server
         if kind == 'potential':
-            srv.send(M.PotentialParents.Response([PotentialParent(n, *PEERS[n]) for n in ev[1]]))
+            self.proposed = (self.proposed + list(ev[1]))[-20:]
+            srv.send(M.PotentialParents.Response(
+                [PotentialParent(n, *(PEERS.get(n) or UNREACHABLE[n])) for n in ev[1]]))
         elif kind == 'incoming':
             self.peers[ev[1]].connect_init(60000, 'D')
         elif kind == 'level':
@@ -129,7 +136,7 @@ class Rig:
         return {
             'children': [c.username for c in dn.children],
             'accept': dn._accept_children, 'max': dn._max_children,
-            'potential': list(dn.potential_parents),
+            'potential': list(self.proposed),
             'parent': dn.parent.username if dn.parent else None,
         }
 
@@ -259,6 +266,8 @@ def alphabet(peers, tier):
         for r in ('R', 'R2', 'self'):
             evs.append(('root', n, r))
         evs.append(('disconnect', n))
+    evs.append(('potential', ('p9',)))
+    evs.append(('incoming', 'p9'))
     for s in ('low', 'one', 'many'):
         evs.append(('stats', s))
     evs.append(('minspeed', 10))
@@ -297,25 +306,65 @@ def run_bfs(peers, max_depth, first=None, tier='quick', max_states=None) -> dict
             'extra': {'bfs_closed': int(res.closed), 'bfs_max_depth': res.max_depth}}
 
 
-def run_deviation(hist, chooser) -> dict:
-    """one history with the explorer's schedule deviations enabled during the last two events"""
+def _stall_accepts(rig):
+    """accepted sockets start with a full send buffer (slow peer): writes to them block until the environment
+    resumes them"""
+    from ..world import EnvEvent
+
+    def on_accept(conn, transport):
+        proto = transport.get_protocol()
+        proto.pause_writing()
+        rig.world.post(EnvEvent('resume', f'resume:{conn.label}', proto.resume_writing, chan=None, holdable=False))
+    rig.cw.net.on_accept = on_accept
+
+
+def run_deviation(hist, chooser, burst=2, stall=False) -> dict:
+    """the last ``burst`` events of the history happen at once (no quiescence in between) and the explorer's
+    schedule deviations order their deliveries, the sends they trigger and the handlers"""
     rig = Rig(chooser=chooser)
     try:
-        before = None
-        for i, h in enumerate(hist):
-            if not rig.enabled(h):
-                continue
-            if i >= len(hist) - 2:
-                rig.world.deviations = True
-            before = rig.snapshot()
-            rig.apply(h)
+        head, tail = hist[:-burst], hist[-burst:]
+        for h in head:
+            if rig.enabled(h):
+                rig.apply(h)
+        before = rig.snapshot()
+        if stall:
+            _stall_accepts(rig)
+        orig = rig.world.run_default_until_idle
+        rig.world.run_default_until_idle = lambda: None        # inject the burst without running the loop
+        try:
+            for h in tail:
+                if rig.enabled(h):
+                    rig.apply(h)
+        finally:
+            rig.world.run_default_until_idle = orig
+        rig.world.deviations = True
+        rig.world.run(until=lambda: not rig.world.loop.has_ready() and not rig.world.releasable())
         rig.world.deviations = False
+        for pe in rig.world.pending:          # withheld frames arrive now: the check is about the settled tree
+            pe.held = pe.lost = False
         rig.world.run_default_until_idle()
-        rig.check(None, hist[-1])
+        rig.check(None, ('burst',) + tuple(h[0] for h in tail))
+        dn = rig.dn
+        if len(dn.children) > max(dn._max_children, 0) and len(dn.children) > len(before['children']):
+            rig.add('too-many-children', f"burst {tail}: {len(dn.children)} children, maximum {dn._max_children}",
+                    'C13:too-many-children')
         return {'violations': list(rig.violations), 'obs': rig.canon(), 'transitions': rig.world.loop.batches,
                 'trace': list(rig.world.trace)}
     finally:
         rig.close()
+
+
+BURSTS = [
+    [('stats', 'one'), ('incoming', 'p2'), ('incoming', 'p3')],
+    [('stats', 'one'), ('incoming', 'p2'), ('disconnect', 'p2')],
+    [('potential', ('p1',)), ('level', 'p1', 1), ('root', 'p1', 'R'), ('incoming', 'p2'), ('level', 'p1', 5)],
+    [('potential', ('p1',)), ('level', 'p1', 1), ('root', 'p1', 'R'), ('incoming', 'p2'), ('disconnect', 'p1')],
+    [('incoming', 'p2'), ('potential', ('p1',)), ('level', 'p1', 1), ('root', 'p1', 'R')],
+    [('potential', ('p1', 'p2')), ('level', 'p1', 1), ('root', 'p1', 'R'), ('level', 'p2', 0)],
+    [('incoming', 'p2'), ('incoming', 'p3'), ('reset',), ('incoming', 'p1')],
+    [('potential', ('p1',)), ('root', 'p1', 'R'), ('level', 'p1', 1), ('level', 'p1', 0)],
+]
 
 
 def scenarios(tier: str):
@@ -336,8 +385,12 @@ def scenarios(tier: str):
     for s in seeds:
         # seeded non-initial states, extended by every event (and by every pair in thorough)
         out.append({'kind': 'seeded', 'hist': [list(e) for e in s], 'depth': 1 if tier == 'quick' else 2})
+    for b in BURSTS:
+        out.append({'kind': 'dev', 'hist': [list(e) for e in b], 'burst': 2})
+        if any(e[0] == 'incoming' for e in b[-2:]):
+            out.append({'kind': 'dev', 'hist': [list(e) for e in b], 'burst': 2, 'stall': True})
         if tier != 'quick':
-            out.append({'kind': 'dev', 'hist': [list(e) for e in s]})
+            out.append({'kind': 'dev', 'hist': [list(e) for e in b], 'burst': 3})
     return out
 
 
@@ -379,7 +432,8 @@ def run_scenario(params: dict, tier: str) -> dict:
                 'transitions': res.transitions, 'outcomes': [f's{hash(hist)}:{o}' for o in res.outcomes],
                 'capped': False, 'samples': res.samples[:1] or [[str(hist)]]}
     hist = tuple(_t(e) for e in params['hist'])
-    res = explore(lambda ch: run_deviation(hist, ch), bound=1, max_exec=20000)
+    res = explore(lambda ch: run_deviation(hist, ch, burst=params.get('burst', 2), stall=params.get('stall', False)),
+                  bound=1 if tier == 'quick' else 2, max_exec=40000)
     return {'executions': res.executions, 'violations': res.violations, 'states': res.states,
             'transitions': res.transitions, 'outcomes': list(res.outcomes), 'capped': res.capped,
             'bound': res.bound_completed, 'samples': res.samples}
